@@ -20,6 +20,7 @@ META = dict(
     "exactly the documented class, a wrong state must raise, neither may ever complete The IP cells also travel over the real HomeKitConnection (pair-verify M2/M4, /pairings) in every legal HTTP spelling of the reply (header-name case, optional whitespace, extra headers, chunked).",
     note="other fields carry the honest values (so an ignored error would otherwise succeed); cells with neither error nor wrong state are not judged",
     design_ref="DESIGN.md §4 C04",
+    debug_pass="thorough",
     rule="a case = one cell of the cross product; distinct = distinct cell; non-trivial = cell carries an error or a wrong state",
 )
 
